@@ -31,11 +31,11 @@ func genC01Cuts(t *rapid.T) KeyCase {
 
 func TestC01Cuts(t *testing.T) { ReplayOrRapid(t, NewRun(t, "C01"), checkC01Cuts, genC01Cuts) }
 
-// ---- C13: panic inserted at every legal index ----
+// ---- C13: panic inserted at every index ----
 
 func checkC13All(c C13Case) (bool, *Violation) {
 	nt := false
-	for _, at := range legalPanicPoints(c.D, c.Steps) {
+	for at := 0; at <= len(c.Steps); at++ {
 		n, v := checkC13(C13Case{D: c.D, Steps: c.Steps, At: at, Hold: 0, NoLogs: c.NoLogs})
 		if v != nil {
 			v.Message = fmt.Sprintf("[panic inserted before event %d of %d] %s", at, len(c.Steps), v.Message)
